@@ -64,10 +64,10 @@ theorem pdb_atom_roundtrip_el (excl : List (List Char)) (serial : Nat) (a : Atom
     | none => rw [hf] at hel; simp at hel
     | some c =>
       rcases halt with halt | halt <;>
-        simp [pdbAtomOfProps, Props.str, Props.int, Props.dec, Props.get, List.find?, halt, hex, he, hf, firstAlpha,
+        simp [pdbAtomOfProps, Props.isNan, Props.str, Props.int, Props.dec, Props.get, List.find?, halt, hex, he, hf, firstAlpha,
           bind, Except.bind, pure, Except.pure]
   · rcases halt with halt | halt <;>
-      simp [pdbAtomOfProps, Props.str, Props.int, Props.dec, Props.get, List.find?, halt, hex, he, bind, Except.bind,
+      simp [pdbAtomOfProps, Props.isNan, Props.str, Props.int, Props.dec, Props.get, List.find?, halt, hex, he, bind, Except.bind,
         pure, Except.pure]
 
 theorem atomFitsB_reads (excl : List (List Char)) (serial : Nat) (a : Atom) (h : atomFitsB excl serial a = true) :
